@@ -4,6 +4,7 @@ package cbor
 
 import (
 	"bytes"
+	"io"
 
 	"github.com/fido-device-onboard/go-fdo/internal/verif"
 )
@@ -235,6 +236,74 @@ func VerifC12_ArrayShift() {
 		}
 	} else {
 		verif.Assert(verif.BytesEq(rest, b), "ArrayShift returns the input unchanged when it cannot shift")
+	}
+	verif.Reached("end")
+}
+
+// vOneByteReader hands out at most one byte per Read (a fragmenting transport)
+type vOneByteReader struct {
+	b   []byte
+	pos int
+}
+
+func (r *vOneByteReader) Read(p []byte) (int, error) {
+	if r.pos >= len(r.b) {
+		return 0, io.EOF
+	}
+	if len(p) == 0 {
+		return 0, nil
+	}
+	p[0] = r.b[r.pos]
+	r.pos++
+	return 1, nil
+}
+
+// stream decoding does not depend on how the transport fragments the bytes: from a
+// reader that delivers one byte per Read the decoder yields the same value or error,
+// and consumes the same number of bytes, as from a contiguous buffer
+func VerifC12_FragmentedReader() {
+	verif.NoPanic()
+	verif.Bound("C12 fragmented", "every byte string of length 1..3 (quick) / 1..4 (thorough) followed by a sentinel item, decoded into any (thorough: also int64 and []byte) from a contiguous buffer and from a reader delivering one byte per Read")
+	n := 1 + verif.Choose("n", 3+verif.Tier())
+	b := append(verif.Bytes("b", n), 0x18, 0x2a)
+	target := verif.Choose("target", 1+2*verif.Tier())
+	dec := func(r io.Reader) (any, error, any, error) {
+		d := NewDecoder(r)
+		switch target {
+		case 0:
+			var x, y any
+			e1 := d.Decode(&x)
+			var e2 error
+			if e1 == nil {
+				e2 = d.Decode(&y)
+			}
+			return x, e1, y, e2
+		case 1:
+			var x, y int64
+			e1 := d.Decode(&x)
+			var e2 error
+			if e1 == nil {
+				e2 = d.Decode(&y)
+			}
+			return x, e1, y, e2
+		}
+		var x, y []byte
+		e1 := d.Decode(&x)
+		var e2 error
+		if e1 == nil {
+			e2 = d.Decode(&y)
+		}
+		return x, e1, y, e2
+	}
+	x1, e1, y1, f1 := dec(bytes.NewReader(b))
+	x2, e2, y2, f2 := dec(&vOneByteReader{b: b})
+	verif.Assert((e1 == nil) == (e2 == nil), "the first item is accepted or rejected alike, however the bytes are fragmented")
+	if e1 == nil && e2 == nil {
+		verif.Assert(verif.DeepEq(x1, x2), "and decodes to the same value")
+		verif.Assert((f1 == nil) == (f2 == nil), "the stream is left at the same position (the next item is read alike)")
+		if f1 == nil && f2 == nil {
+			verif.Assert(verif.DeepEq(y1, y2), "and the next item decodes to the same value")
+		}
 	}
 	verif.Reached("end")
 }
